@@ -856,8 +856,9 @@ impl Parser {
             }
 
             Some((_, Token::Operator(Operator::Star))) => {
-                self.next()?;
-                let typ = self.qualified_ident(None)?;
+                let pos = self.expect(Operator::Star)?;
+                let typ = Box::new(self.qualified_ident(None)?);
+                let typ = ast::Expression::TypePointer(ast::PointerType { pos, typ });
                 let tag = self.string_literal_or_none()?;
                 Ok(ast::Field { name: vec![], typ, tag, comments })
             }
